@@ -380,7 +380,10 @@ func (w *world) randLine() string {
 	case k < 4:
 		return fmt.Sprintf("-m foo --n %d -j ACCEPT", r.intn(5))
 	case k < 5:
-		return "-j KUBE-SVC"
+		// foreign rules: jumps to foreign chains with Felix-like names, comments with cali: text that is no hash comment
+		return []string{"-j KUBE-SVC", "-j acme-felix-audit", "-j ufw-califw-compat", "--jump x-cali-y", "-j Cali-foo",
+			"-j my-calipo-thing", `-m comment --comment "see cali:docs" -j ACCEPT`, `-m comment --comment "Cali:abc" -j ACCEPT`,
+			`-m comment --comment "xcali:abc" -j ACCEPT`, `-m comment --comment "cali:" -j ACCEPT`, "-j felix", "-j cali"}[r.intn(12)]
 	case k < 6:
 		return []string{"-j cali-FORWARD", "--jump felix-INPUT", "-m sneaky-rule -j DROP", "-j califw-x"}[r.intn(4)]
 	case k < 8:
@@ -496,7 +499,12 @@ func (w *world) innerEditOp() (string, bool) {
 }
 
 var staleOwned = []string{"cali-old", "felix-x", "califw-y", "calipo-z", "cali-a", "cali-c"}
-var foreignNames = []string{"KUBE-SVC", "DOCKER", "calico-dhcp", "cal"}
+
+// chains of other software; many names CONTAIN a historic Felix prefix not at the start, equal a prefix
+// without its dash, or differ from one only by case: none of them starts with a configured prefix
+var foreignNames = []string{"KUBE-SVC", "DOCKER", "calico-dhcp", "cal", "cali", "felix", "califw", "calipo",
+	"x-cali-y", "acme-felix-audit", "ufw-califw-compat", "my-calitw-x", "a-califh-b", "n-calith-n", "q-calipi-q",
+	"my-calipo-thing", "Cali-foo", "CALI-x", "Felix-a", "xcali-", "-cali-"}
 
 // generate, apply to the mock kernel and return as Coq text n out-of-band edits
 func (w *world) genEdits(n int) string {
@@ -688,8 +696,14 @@ func oneCase(seed uint64, idx int, maxOps int) line {
 		}
 		k0[kc] = ls
 	}
-	for n := r.intn(3); n > 0; n-- {
+	for n := 1 + r.intn(4); n > 0; n-- {
 		c := foreignNames[r.intn(len(foreignNames))]
+		if owned(c) {
+			panic("C15 driver: foreign name is Felix-owned: " + c)
+		}
+		if strings.Contains(c[1:], "cali") || strings.Contains(c[1:], "felix") || c == "cali" || c == "felix" {
+			tags["k0:foreign-felixlike-name"] = true
+		}
 		ls := []string{}
 		for m := r.intn(4); m > 0; m-- {
 			ls = append(ls, w.randLine())
